@@ -5,6 +5,7 @@
 
 #pragma once
 #include <ygm/detail/meta/functional.hpp>
+#include <ygm/detail/verif_hooks.hpp>
 #include <ygm/detail/ygm_cereal_archive.hpp>
 
 namespace ygm {
@@ -175,6 +176,7 @@ inline void comm::async(int dest, AsyncFunction fn, const SendArgs &...args) {
     iter -= (header_bytes + bytes);
     std::memcpy(&*iter, &bytes, sizeof(header_t::dest));
   }
+  YGM_VERIF_ORIGINATE(dest, next_dest, header_bytes, bytes);
 
   //
   // Check if send buffer capacity has been exceeded
@@ -855,6 +857,8 @@ inline void comm::queue_message_bytes(const std::vector<std::byte> &packed,
   std::memcpy(send_buff.data() + size_before, packed.data(), packed.size());
 
   m_send_buffer_bytes += packed.size();
+  YGM_VERIF_ORIGINATE(-1, dest, send_buff.size() - size_before - packed.size(),
+                      packed.size());
 }
 
 inline void comm::handle_next_receive(MPI_Status                   status,
@@ -872,7 +876,9 @@ inline void comm::handle_next_receive(MPI_Status                   status,
       if (h.dest == m_layout.rank() || (h.dest == -1 && h.message_size == 0)) {
         uint16_t lid;
         iarchive.loadBinary(&lid, sizeof(lid));
+        YGM_VERIF_EXEC_BEGIN(lid, &iarchive);
         m_lambda_map.execute(lid, this, &iarchive);
+        YGM_VERIF_EXEC_END(lid, &iarchive);
         m_recv_count++;
         stats.rpc_execute();
       } else {
@@ -898,7 +904,9 @@ inline void comm::handle_next_receive(MPI_Status                   status,
     } else {
       uint16_t lid;
       iarchive.loadBinary(&lid, sizeof(lid));
+      YGM_VERIF_EXEC_BEGIN(lid, &iarchive);
       m_lambda_map.execute(lid, this, &iarchive);
+      YGM_VERIF_EXEC_END(lid, &iarchive);
       m_recv_count++;
       stats.rpc_execute();
     }
